@@ -73,3 +73,32 @@ def eval_e(e, V, F):
 
 SC = [Fr(1), Fr(2), Fr(-1), Fr(1, 2), Fr(0), Fr(-3, 2), Fr(4), Fr(1, 4), Fr(3)]
 DIV = [Fr(2), Fr(-1), Fr(1, 2), Fr(4), Fr(1, 4), Fr(-2), Fr(0)]    # divisions stay exact in binary floating point
+
+
+CLASSES = {  # class -> admissible parameter tuples (dyadic; the first one is the historical default).  Edge values on
+    # purpose: mu = 0, beta = 0, rho = 0, mu = L where allowed, L = 1 (factors that disappear), negative mu of symmetric operators
+    "ConvexFunction": [[]], "StronglyConvexFunction": [["1/4"], ["0"], ["1"], ["2"]], "ConvexLipschitzFunction": [["3/2"], ["1"], ["1/2"], ["4"]],
+    "ConvexIndicatorFunction": [["5/2"], ["1"], ["1/2"]], "ConvexSupportFunction": [["3/2"], ["1"], ["4"]], "ConvexQGFunction": [["2"], ["1"], ["1/2"]],
+    "RsiEbFunction": [["1/4", "2"], ["1", "1"], ["1/2", "4"], ["0", "2"]], "SmoothConvexFunction": [["2"], ["1"], ["1/2"], ["4"]],
+    "SmoothConvexLipschitzFunction": [["2", "3/2"], ["1", "1"], ["4", "1/2"]],
+    "SmoothFunction": [["2"], ["1"], ["1/4"]], "SmoothStronglyConvexFunction": [["1/4", "2"], ["0", "1"], ["1/2", "4"], ["1", "2"]],
+    "SmoothStronglyConvexQuadraticFunction": [["1/4", "2"], ["0", "1"], ["1", "4"], ["1/2", "1"]],
+    "CocoerciveOperator": [["1/4"], ["1"], ["2"], ["0"]], "CocoerciveStronglyMonotoneOperator": [["1/4", "1/2"], ["0", "1/2"], ["1/4", "0"], ["0", "0"], ["1", "1"]],
+    "LinearOperator": [["2"], ["1"], ["1/2"]],
+    "LipschitzOperator": [["2"], ["1"], ["1/4"]], "LipschitzStronglyMonotoneOperator": [["1/4", "2"], ["0", "1"], ["1", "2"], ["1", "1"]], "MonotoneOperator": [[]],
+    "NegativelyComonotoneOperator": [["1/8"], ["1"], ["0"]], "NonexpansiveOperator": [[]], "SkewSymmetricLinearOperator": [["2"], ["1"], ["1/2"]],
+    "StronglyMonotoneOperator": [["1/4"], ["1"], ["0"]], "SymmetricLinearOperator": [["1/4", "2"], ["0", "1"], ["-1", "1"], ["1", "1"], ["-1/2", "2"]],
+}
+
+
+def param_kwargs(cname, tup):
+    """keyword arguments of a class for one tuple of CLASSES (same mapping as the line protocol)"""
+    import inspect
+    import PEPit.functions as PF, PEPit.operators as PO
+    C = getattr(PF, cname, None) or getattr(PO, cname)
+    names = [p for p in inspect.signature(C.__init__).parameters if p in ("mu", "L", "M", "D", "beta", "rho")]
+    return {p: float(Fr(v)) for p, v in zip(names, tup)}
+
+
+def random_params(rnd, cname):
+    return param_kwargs(cname, rnd.choice(CLASSES.get(cname, [[]])))
